@@ -93,7 +93,7 @@ def spec_words(slots, busw, ordering):
             words.append((ri, i * busw, min(S, (i + 1) * busw), k == nw - 1))
     return words
 
-def c_composed(design, busw, ordering, paging, handler="soc", shared=False, reserved=None):
+def c_composed(design, busw, ordering, paging, handler="soc", shared=False, reserved=None, aw=14):
     """design: {top attribute name: (entries, excluded)}"""
     reg = {}
     calls = []
@@ -101,9 +101,9 @@ def c_composed(design, busw, ordering, paging, handler="soc", shared=False, rese
         def __init__(self):
             for name, (entries, excl) in design.items():
                 sub = _mkmod(entries, excl, reg, (name,)); setattr(self, name, sub); self.submodules += sub
-            self.m = csr_bus.Interface(data_width=busw, address_width=14)
+            self.m = csr_bus.Interface(data_width=busw, address_width=aw)
             if handler == "soc":
-                self.hnd = SOC.SoCCSRHandler(data_width=busw, address_width=14, alignment=32, paging=paging, ordering=ordering, reserved_csrs=dict(reserved or {}))
+                self.hnd = SOC.SoCCSRHandler(data_width=busw, address_width=aw, alignment=32, paging=paging, ordering=ordering, reserved_csrs=dict(reserved or {}))
                 elab.restore_stderr()
                 amap = self.hnd.address_map
             else:
@@ -111,15 +111,15 @@ def c_composed(design, busw, ordering, paging, handler="soc", shared=False, rese
                 amap = lambda name, memory: table.get(name if memory is None else name + "/" + memory.name_override)
             def logged(name, memory):
                 r = amap(name, memory); calls.append((name, None if memory is None else id(memory), r)); return r
-            self.submodules.array = csr_bus.CSRBankArray(self, logged, data_width=busw, address_width=14, paging=paging, ordering=ordering)
+            self.submodules.array = csr_bus.CSRBankArray(self, logged, data_width=busw, address_width=aw, paging=paging, ordering=ordering)
             if shared:
-                self.m2 = csr_bus.Interface(data_width=busw, address_width=14)
+                self.m2 = csr_bus.Interface(data_width=busw, address_width=aw)
                 self.submodules.ic = csr_bus.InterconnectShared([self.m, self.m2], self.array.get_buses())
             else:
                 self.submodules.ic = csr_bus.Interconnect(self.m, self.array.get_buses())
     d = mk(Top); m = d.m; arr = d.array
     ap = paging // 4; pb = ap.bit_length() - 1; assert 1 << pb == ap
-    PW = 14 - pb
+    PW = aw - pb
     # ---- expected structure from the description -------------------------------------------------------------------------------------
     pre = []; ok_all = True
     def struct(name, ok, **info):
@@ -182,12 +182,12 @@ def c_composed(design, busw, ordering, paging, handler="soc", shared=False, rese
             elif e[0] == "status": ins.append(o.status)
             elif e[0] == "csr": ins.append(o.w)
             elif opts.get("dev"): ins += [o.we, o.dat_w]
-    hname = f"composed(bus={busw},{ordering},paging={paging:#x},{'SoCCSRHandler' if handler == 'soc' else 'table'}{',shared' if shared else ''})"
+    hname = f"composed(bus={busw},{ordering},paging={paging:#x},aw={aw},{'SoCCSRHandler' if handler == 'soc' else 'table'}{',shared' if shared else ''})"
     h = HwCheck(hname, d, ins); h.pre_results = pre
     V = h.v
     if shared:
         h.assume(z3.And(V(d.m2.adr) == 0, V(d.m2.we) == 0, V(d.m2.re) == 0, V(d.m2.dat_w) == 0), "csr_bus.InterconnectShared ORs its masters: all masters but one are idle (drive zero)")
-    adr = V(m.adr); idx = z3.Extract(pb - 1, 0, adr); page = z3.Extract(13, pb, adr)
+    adr = V(m.adr); idx = z3.Extract(pb - 1, 0, adr); page = z3.Extract(aw - 1, pb, adr)
     we, re = b(V(m.we)), b(V(m.re)); dw = V(m.dat_w)
     def at(P, a): return z3.And(page == K(P, PW), idx == K(a, pb))
     # word table of the whole array: address -> (bank, slot, lo, hi, last)
@@ -341,7 +341,7 @@ class SymStr:
     def __format__(self, spec): return f"<str {self.t}>"
     __str__ = __repr__ = lambda self: f"<str {self.t}>"
 def _c(): return pysym.CTX
-PORTFOLIO = (dict(mbqi=False, timeout=10000), dict(timeout=20000), dict(mbqi=False, random_seed=11, timeout=30000), dict(random_seed=5, timeout=60000))
+PORTFOLIO = (dict(mbqi=False, timeout=10000), dict(timeout=20000), dict(mbqi=False, random_seed=11, timeout=20000))
 def _robust(ctx):
     """obligations of this module are quantified: discharge them with a small portfolio of solver configurations (pure E-matching first, then with
     model-based instantiation, then other seeds) so that a verdict does not depend on one run's instantiation order; `sat` is only accepted with a model"""
@@ -491,6 +491,19 @@ def c_prefix(which):
     for w in ("twice", "nomember"):
         _, o2, _ = _run_prefix(fn, wrong=w)
         refuted += any(n_.startswith("wrong.") and s_ == "FAILED" for n_, s_, _ in o2)
+    # bounded native cross-check of the same contract on the real function (plain CPython; gives a concrete witness when the proof fails)
+    import random
+    rnd = random.Random(3); badn = []; attr = "name" if which == "csrprefix" else "name_override"
+    class Obj:
+        def __init__(s, duid): s.duid = duid; setattr(s, attr, f"n{duid}")
+    for trial in range(300):
+        pool = [Obj(i) for i in range(5)]; lst = [rnd.choice(pool) for _ in range(rnd.randint(0, 6))]; done0 = {o.duid for o in pool if rnd.random() < 0.4}; done = set(done0)
+        fn("p_", lst, done)
+        for o in pool:
+            wantn = ("p_" if (o in lst and o.duid not in done0) else "") + f"n{o.duid}"
+            if getattr(o, attr) != wantn: badn.append(dict(list=[x.duid for x in lst], done_before=sorted(done0), object=o.duid, name=getattr(o, attr), want=wantn))
+        if done != done0 | {o.duid for o in lst}: badn.append(dict(list=[x.duid for x in lst], done_before=sorted(done0), done_after=sorted(done)))
+    out.append(res(f"{which}.native(300 random lists with duplicates)", "bounded", BOUNDED_OK if not badn else VIOLATED, 0, "plain CPython", info=str(badn[:2]) if badn else ""))
     want = {f"{which}.loop0.init", f"{which}.loop0.step"}
     ok = stats["done"] > 0 and want <= set(by) and refuted == 2
     out.append(res(f"{which}.cover.exit-path-reached;loop-obligations-generated;wrong-postconditions-refuted", "cover", OK if ok else VACUOUS, time.time() - t0, "pysym", paths=paths, refuted=refuted))
@@ -586,9 +599,9 @@ def _run_gather(method, prefix_name, sort, has_exclude, first_call, wrong=None):
         assert src.count("__vc.for_begin") == 1 and "__vc.newlist()" in src, "loop structure of _make_gatherer changed"
         def m_prefix(prefix, items, done):
             """CONTRACT of csrprefix / memprefix (proved by the case `csrprefix` / `memprefix` of this module)"""
-            if not (isinstance(items, Seq) and isinstance(done, SetProxy) and isinstance(prefix, SymStr)): raise PUnsupported("prefix_cb arguments")
-            el0 = items.el(z3.IntVal(0))
-            mem = lambda o: z3.And(w.INCH(o), w.CEL(w.OA(o), z3.IntVal(0)) == el0, items.n == w.CLEN(w.OA(o))) if False else None
+            if isinstance(prefix, Key): prefix = SymStr(w.KEY(prefix.a))
+            if isinstance(prefix, str): prefix = SymStr(z3.StringVal(prefix))
+            if not (isinstance(items, Seq) and builtins.hasattr(items, "attr") and isinstance(done, SetProxy) and isinstance(prefix, SymStr)): raise PUnsupported("prefix_cb arguments")
             a_ = items.attr; MEMB = lambda o: z3.And(w.INCH(o), w.OA(o) == a_)
             d0, n0 = done.D, heap.name
             done.D = z3.Lambda([x], z3.Or(z3.Select(d0, x), MEMB(x)))
@@ -743,6 +756,7 @@ class _StrLocs:
     def __getitem__(self, name):
         if not bool(SymBool(z3.Select(self.pres, zs(name)))): raise KeyError(str(name))
         return SymInt(z3.Select(self.val, zs(name)))
+    def __setitem__(self, name, n): self.pres = z3.Store(self.pres, zs(name), z3.BoolVal(True)); self.val = z3.Store(self.val, zs(name), toint(n))
 def c_address_map():
     """two objects handed to the real SoCCSRHandler.address_map one after the other, handler state arbitrary (injective, in range).  SoCLocHandler.add is replaced
     by its contract (proved in C13_alloc.py: SoCLocHandler.add(reuse): either SoCError or name granted, invariant kept, other names untouched)."""
@@ -934,6 +948,22 @@ def c_field_overlap():
         try: CSRField("f", size=sz)
         except (TypeError, ValueError, AssertionError): rej += 1
     out.append(res("CSRField.size<=0-rejected-at-construction(migen Signal)", "struct", PROVED if rej == 3 else VIOLATED, 0, "plain CPython"))
+    # bounded native cross-check (3 fields, sizes 1..3, offsets None / -1..7): accepted iff every declared offset >= end of the previous field; offsets / size / reset as specified
+    badn = []; evals = 0
+    for sizes in itertools.product((1, 2, 3), repeat=3):
+        for offs in itertools.product((None, -1, 0, 1, 2, 3, 5, 7), repeat=3):
+            evals += 1; run_ = 0; exp_ = []; legal = True
+            for sz, of in zip(sizes, offs):
+                o = run_ if of is None else of
+                if o < run_: legal = False; break
+                exp_.append(o); run_ = o + sz
+            fl = [CSRField(f"f{i}", size=sz, offset=of, reset=(1 << sz) - 1) for i, (sz, of) in enumerate(zip(sizes, offs))]
+            try: agg = CSRFieldAggregate(fl, CSRAccess.ReadWrite); acc = True
+            except ValueError: acc = False
+            if acc != legal: badn.append(dict(sizes=sizes, offsets=offs, accepted=acc, legal=legal)); continue
+            if acc and ([f.offset for f in fl] != exp_ or agg.get_size() != run_ or agg.get_reset() != sum(((1 << sz) - 1) << o for sz, o in zip(sizes, exp_))):
+                badn.append(dict(sizes=sizes, offsets=offs, got=[f.offset for f in fl], want=exp_, size=agg.get_size(), reset=agg.get_reset()))
+    out.append(res("CSRFieldAggregate.native(3 fields: sizes 1..3 x offsets None/-1..7)", "bounded", BOUNDED_OK if not badn else VIOLATED, 0, "plain CPython", evaluations=evals, info=str(badn[:2]) if badn else ""))
     ok = stats["accepted"] > 0 and stats["rejected"] > 0 and {"check_ordering_overlap.loop0.init", "check_ordering_overlap.loop0.step"} <= set(by) and refuted
     out.append(res("check_ordering_overlap.cover.accepts-and-rejects;wrong-postcondition-refuted", "cover", OK if ok else VACUOUS, time.time() - t0, "pysym", paths=paths, refuted=refuted, **stats))
     return dict(results=out, functions=["litex.soc.interconnect.csr.CSRFieldAggregate.check_ordering_overlap", "litex.soc.interconnect.csr.CSRFieldAggregate.get_size"],
@@ -1074,6 +1104,12 @@ def cases(tier):
           VCase("composed(A,bus=32,big,paging=0x1000,SoCCSRHandler,reserved locations)", c_composed, design_a(32), 32, "big", 0x1000, "soc", False, {"beta": 5, "gamma": 0}),
           VCase("composed(paged,bus=8,little,paging=0x20,table)", c_composed, design_paged(8), 8, "little", 0x20, {"pa": 6, "pa/win": 2, "pb": 7, "pb/rom": 3}),
           VCase("composed(paged,bus=32,big,paging=0x20,table)", c_composed, design_paged(32), 32, "big", 0x20, {"pa": 1, "pa/win": 0, "pb": 2, "pb/rom": 511})]
+    if tier == "thorough":
+        for busw in (8, 32):
+            for ordering in ("big", "little"):
+                for paging, aw in ((0x400, 14), (0x800, 15), (0x2000, 16), (0x4000, 18)):
+                    cs.append(VCase(f"composed(A,bus={busw},{ordering},paging={paging:#x},aw={aw},SoCCSRHandler,thorough)", c_composed, design_a(busw), busw, ordering, paging, "soc", busw == 32, None, aw))
+        cs.append(VCase("AutoCSR.get_csrs(native trees,2000)", c_gather_native, 2000, 7))
     cs += [VCase("AutoCSR.get_csrs(native trees)", c_gather_native), VCase("SoCCSRHandler.address_map(proof)", c_address_map), VCase("CSRBank(bank larger than a page)", c_bank_overflow),
            VCase("CSRFieldAggregate.check_ordering_overlap(proof)", c_field_overlap), VCase("CSRFieldAggregate.get_reset(proof)", c_field_reset)]
     for sf, tf, busw, ordering, atomic, tag in ((SF1, TF1, 8, "big", False, "ctl"), (SF1, TF1, 8, "little", False, "ctl"), (SF1, TF1, 8, "big", True, "ctl"), (SF1, TF1, 32, "big", False, "ctl"),
@@ -1084,6 +1120,7 @@ def cases(tier):
         cs.append(VCase(f"AutoCSR.{method}(proof,first call,exclude)", c_gatherer, method, pf, False, True, True))
     cs += [VCase("AutoCSR.get_csrs(proof,later call,exclude)", c_gatherer, "get_csrs", "csrprefix", False, True, False),
            VCase("AutoCSR.get_csrs(proof,first call,no exclude attribute)", c_gatherer, "get_csrs", "csrprefix", False, False, True),
+           VCase("AutoCSR.get_csrs(proof,sort=True,first call,exclude)", c_gatherer, "get_csrs", "csrprefix", True, True, True),
            VCase("AutoCSR.get_csrs(proof,sort=True,later call,exclude)", c_gatherer, "get_csrs", "csrprefix", True, True, False)]
     return cs
 
